@@ -2,6 +2,7 @@ package vmc
 
 import (
 	"fmt"
+	"math"
 	"reflect"
 	"sort"
 	"time"
@@ -193,19 +194,60 @@ func NewTimerChan(d time.Duration, periodic bool, what string) (*Chan[time.Time]
 // ---- deterministic map iteration
 
 // Reg gives a pointer a deterministic creation-order id (used to order pointer-keyed maps).
+// Registering the same pointer again keeps its first id.
 func Reg[T any](p *T) *T {
 	s := S
-	if s != nil {
-		s.nextObj++
-		s.regs[uintptr(unsafe.Pointer(p))] = s.nextObj
-		s.regKeep = append(s.regKeep, p) // keeps the object alive: its address is not reused
+	if s != nil && p != nil {
+		regAddr(s, uintptr(unsafe.Pointer(p)), unsafe.Pointer(p))
 	}
 	return p
 }
 
+func regAddr(s *Sched, a uintptr, keep unsafe.Pointer) {
+	if _, ok := s.regs[a]; ok {
+		return
+	}
+	s.nextObj++
+	s.regs[a] = s.nextObj
+	s.regKeep = append(s.regKeep, keep) // keeps the object alive: its address is not reused
+}
+
+// RegKey is applied to the key of every map insertion of the rewritten code: pointers inside
+// the key (the key itself, struct fields, array elements, interface contents) that have no id
+// yet get one now. Insertions happen in program order under the controlled scheduler, so the
+// ids - and with them the iteration order SortedKeys produces - are a function of the schedule
+// however the pointed-to object was allocated.
+func RegKey[K any](k K) K {
+	if S != nil {
+		regWalk(S, reflect.ValueOf(&k).Elem())
+	}
+	return k
+}
+
+func regWalk(s *Sched, v reflect.Value) {
+	switch v.Kind() {
+	case reflect.Ptr, reflect.UnsafePointer, reflect.Chan, reflect.Func:
+		if !v.IsNil() {
+			regAddr(s, v.Pointer(), v.UnsafePointer())
+		}
+	case reflect.Struct:
+		for i := 0; i < v.NumField(); i++ {
+			regWalk(s, v.Field(i))
+		}
+	case reflect.Array:
+		for i := 0; i < v.Len(); i++ {
+			regWalk(s, v.Index(i))
+		}
+	case reflect.Interface:
+		if !v.IsNil() {
+			regWalk(s, v.Elem())
+		}
+	}
+}
+
 func keyOrder(v reflect.Value) string {
 	switch v.Kind() {
-	case reflect.Ptr:
+	case reflect.Ptr, reflect.UnsafePointer, reflect.Chan:
 		if v.IsNil() {
 			return "p0"
 		}
@@ -213,7 +255,7 @@ func keyOrder(v reflect.Value) string {
 		id, ok := S.regs[v.Pointer()]
 		if !ok {
 			// a limit of the machinery, not a property violation
-			panic(Divergence{fmt.Sprintf("unsupported: map key of type %s is a pointer that was not created by a composite literal or new() in the rewritten package: iteration order would not be deterministic", v.Type())})
+			panic(Divergence{fmt.Sprintf("unsupported: map key of type %s is a pointer that was neither created by a composite literal / new() nor inserted into the map by rewritten code: iteration order would not be deterministic", v.Type())})
 		}
 		return fmt.Sprintf("p%012d", id)
 	case reflect.Struct:
@@ -222,19 +264,36 @@ func keyOrder(v reflect.Value) string {
 			s += keyOrder(v.Field(i)) + "|"
 		}
 		return s
+	case reflect.Array:
+		s := "["
+		for i := 0; i < v.Len(); i++ {
+			s += keyOrder(v.Index(i)) + ","
+		}
+		return s + "]"
+	case reflect.Bool:
+		if v.Bool() {
+			return "b1"
+		}
+		return "b0"
 	case reflect.Int, reflect.Int8, reflect.Int16, reflect.Int32, reflect.Int64:
-		return fmt.Sprintf("i%020d", v.Int()+1<<62)
-	case reflect.Uint, reflect.Uint8, reflect.Uint16, reflect.Uint32, reflect.Uint64:
+		return fmt.Sprintf("i%020d", uint64(v.Int())+1<<63)
+	case reflect.Uint, reflect.Uint8, reflect.Uint16, reflect.Uint32, reflect.Uint64, reflect.Uintptr:
 		return fmt.Sprintf("u%020d", v.Uint())
+	case reflect.Float32, reflect.Float64:
+		// total order on the bit pattern (any deterministic order will do)
+		return fmt.Sprintf("f%020d", math.Float64bits(v.Float()))
+	case reflect.Complex64, reflect.Complex128:
+		c := v.Complex()
+		return fmt.Sprintf("c%020d,%020d", math.Float64bits(real(c)), math.Float64bits(imag(c)))
 	case reflect.String:
 		return "s" + v.String()
 	case reflect.Interface:
 		if v.IsNil() {
 			return "n"
 		}
-		return keyOrder(v.Elem())
+		return v.Elem().Type().String() + ":" + keyOrder(v.Elem())
 	}
-	panic(fmt.Sprintf("vmc: unsupported map key kind %s", v.Kind()))
+	panic(Divergence{fmt.Sprintf("unsupported: map key kind %s", v.Kind())})
 }
 
 // SortedKeys returns the keys of m in a deterministic order (creation order for pointers).
@@ -273,7 +332,6 @@ func AddTimerFunc(d time.Duration, what string, f func()) func() {
 	t := S.addTimer(d, 0, what, f)
 	return func() { t.stopped = true }
 }
-
 
 // RearmTimerChan arms a (new) timer delivering on an existing channel.
 func RearmTimerChan(c *Chan[time.Time], d time.Duration, periodic bool, what string) func() bool {
